@@ -135,7 +135,7 @@ def search(ctx, broken, disagreements):
     found, n, dist, known_hits = [], 0, {}, 0
     for i in range(ctx.n(220, 5000)):
         kw = [dict(), dict(gradients=0.6, uses=0.4), dict(strokes=0.6, clips=0.5), dict(shared_ids=True, nested=0.3)][i % 4]
-        doc = docgen.random_doc(rng, **kw)
+        doc = docgen.random_doc(rng, **kw) if i % 4 != 3 else docgen.group_soup(rng)
         nd = rng.randint(0, 6) if i % 2 else 3
         n += 1
         dist[f'ndigits={nd}'] = dist.get(f'ndigits={nd}', 0) + 1
